@@ -60,6 +60,8 @@ var Mutants = []Mutant{
 	{ID: "range-extra-args-dropped", Props: []string{"C05", "C04", "C06"}, Rule: "R-LISTUSE", File: "pkg/parser/parser.go", Find: "\tif len(nodes) > 1 && t.Name != NUM {\n\t\tp.appendError(\"range with more than one argument must be num, found \" + t.String())\n\t\treturn nil\n\t}\n", Replace: "", Expect: "parseForStatement#list", Describe: "extra operands after a string/array/map range are accepted and dropped"},
 	{ID: "slice-type-not-inferred", Props: []string{"C03", "C04"}, Rule: "R-CONCRETE", File: "pkg/parser/expression.go", Find: "T: fixedType(left.Type().infer())}", Replace: "T: fixedType(left.Type())}", Expect: "parseSlice#fixed-is-concrete", Describe: "[[]][:1] keeps the open type of the empty literal and is fixed"},
 	{ID: "unary-operand-type", Props: []string{"C03"}, Rule: "R-CONCRETE", File: "pkg/parser/ast.go", Find: "\tif u.Op == OP_BANG {\n\t\treturn BOOL_TYPE\n\t}\n\treturn NUM_TYPE // OP_MINUS", Replace: "\treturn u.Right.Type()", Expect: "(*UnaryExpression).Type#returns-own-type", Describe: "-[] carries the untyped empty array type into wrapAny"},
+	{ID: "matches-wildcard-first", Props: []string{"C04", "C05"}, Rule: "R-TYPEREL", File: "pkg/parser/type.go", Find: "\t\tcase left.Name != right.Name:\n\t\t\treturn false\n\t\tcase left == EMPTY_ARRAY, left == EMPTY_MAP, right == EMPTY_ARRAY, right == EMPTY_MAP:\n\t\t\treturn true\n", Replace: "\t\tcase left == EMPTY_ARRAY, left == EMPTY_MAP, right == EMPTY_ARRAY, right == EMPTY_MAP:\n\t\t\treturn true\n\t\tcase left.Name != right.Name:\n\t\t\treturn false\n", Expect: "matches#wildcard", Describe: "an empty literal matches operands of any kind"},
+	{ID: "infer-stops-early", Props: []string{"C04"}, Rule: "R-TYPEREL", File: "pkg/parser/type.go", Find: "\tt2 := *t\n\tt2.Sub = t.Sub.infer()\n\treturn &t2", Replace: "\tif t.Sub != EMPTY_ARRAY && t.Sub != EMPTY_MAP {\n\t\treturn t\n\t}\n\tt2 := *t\n\tt2.Sub = t.Sub.infer()\n\treturn &t2", Expect: "infer#returns-receiver-only-for-basic-types", Describe: "infer looks one level down only"},
 	// C05 / C06
 	{ID: "break-no-eol", Props: []string{"C05", "C06"}, Rule: "R-EOLSTATE", File: "pkg/parser/parser.go", Find: "\tp.advance() // advance past BREAK token\n\tp.assertEOL()\n", Replace: "\tp.advance() // advance past BREAK token\n", Expect: "parseBreakStatement#skip", Describe: "text after break is skipped"},
 	{ID: "if-end-no-eol", Props: []string{"C05", "C06"}, Rule: "R-EOLSTATE", File: "pkg/parser/parser.go", Find: "\tp.assertEnd()\n\tp.advance()\n\tp.assertEOL()\n\tp.recordComment(ifStmt)", Replace: "\tp.assertEnd()\n\tp.advance()\n\tp.recordComment(ifStmt)", Expect: "parseIfStatement#skip", Describe: "text after the end of an if is skipped"},
